@@ -61,7 +61,7 @@ def gen_case(rng, strategies=ALL, max_m=20, max_n=24, integer_ok=True):
             c["a"] = rng.randint(0, n)
         if s.startswith("exp"):
             c["beta"] = str(Fraction(rng.randint(0, 8), 8))
-            c["exp"] = rng.choice([1, 2, 2, 3, 0.5, 1.5, 4, 0.25])
+            c["exp"] = rng.choice([1, 2, 2, 3, 0.5, 1.5, 4, 0.25, 0.05])
         if s.endswith("adaptive"):
             c["smooth"] = rng.choice([1, 1, 1, 2, 3, 0.5])
     return c
@@ -234,14 +234,16 @@ def compare(c, io, mo, kinds):
             if not ans.startswith("ok "):
                 return f"windows: model says {ans}"
             f = ans[3:].split()
-            aL, aR, fl = parse_ints(f[0]), parse_ints(f[1]), parse_ints(f[2])
+            aL, aR = parse_ints(f[0]), parse_ints(f[1])
+            shL, shR = parse_rats(f[2]), parse_rats(f[3])
             for k in range(m + 1):
-                for nm, mv, iv in (("a_l", aL[k], io["aL"][k]), ("a_r", aR[k], io["aR"][k])):
+                for nm, mv, iv, sh in (("a_l", aL[k], io["aL"][k], shL[k]), ("a_r", aR[k], io["aR"][k], shR[k])):
                     if mv != iv:
-                        if fl[k] and abs(mv - iv) == 1:
-                            relaxed += 1     # int() of an exact integer: either neighbour (rule 4)
+                        near = abs(float(sh) - round(float(sh))) < 1e-9
+                        if near and abs(mv - iv) == 1:
+                            relaxed += 1     # int() applied within rounding distance of an integer (rule 4)
                             continue
-                        return f"windows: interval {k} {nm} impl {iv} model {mv} (exact-int flag {fl[k]})"
+                        return f"windows: interval {k} {nm} impl {iv} model {mv} (un-floored share {float(sh)!r})"
         elif kind in ("values", "grid"):
             if "err" in io:
                 if ans != f"ERR {io['err']}":
